@@ -11,6 +11,13 @@ import (
 func Message(t *rapid.T, prev []byte, bufSize int) []byte {
 	d7 := rapid.OneOf(rapid.ByteRange(0, 127), rapid.SampledFrom([]byte{0, 1, 63, 64, 126, 127}))
 	k := rapid.IntRange(0, 19).Draw(t, "kind")
+	// one channel message in eight is the previous one again on another channel (a unison, a
+	// layered sound: same data bytes, other channel)
+	if k <= 10 && len(prev) > 1 && prev[0] >= 0x80 && prev[0] < 0xF0 && rapid.IntRange(0, 7).Draw(t, "sameOnOtherChannel?") == 0 {
+		m := append([]byte{}, prev...)
+		m[0] = prev[0]&0xF0 | (prev[0]&0x0F+byte(rapid.IntRange(1, 15).Draw(t, "channelStep")))&0x0F
+		return m
+	}
 	switch {
 	case k <= 10: // channel voice
 		st := rapid.SampledFrom([]byte{0x80, 0x90, 0xA0, 0xB0, 0xC0, 0xD0, 0xE0}).Draw(t, "chKind") | rapid.ByteRange(0, 15).Draw(t, "ch")
